@@ -128,7 +128,7 @@ var fsMutatingOps = map[string]bool{
 	"(*os.File).Truncate": true, "os.Truncate": true, "(*os.File).Chmod": true, "os.Remove": true, "syscall.Unlink": true,
 	"os.RemoveAll": true, "os.Mkdir": true, "os.MkdirAll": true, "os.Rename": true, "os.Symlink": true, "os.Chown": true,
 	"os.Lchown": true, "os.Chtimes": true, "os.Chmod": true, "syscall.Chmod": true, "syscall.Mknod": true, "os.MkdirTemp": true,
-	"github.com/pkg/xattr.LSet": true,
+	"github.com/pkg/xattr.LSet": true, "github.com/pkg/xattr.Set": true,
 }
 
 func pathStr(p value) string {
@@ -1160,48 +1160,65 @@ func init() {
 		return fmt.Sprintf(".%d", 1000+i.ps.fs.tmpSeq)
 	})
 	// extended attributes
-	R("github.com/pkg/xattr.LSet", func(i *interpreter, fr *frame, fn *ssa.Function, a []value) value {
-		r := i.resolve(fr, a[0], false)
-		if r.errno != 0 || r.node == nil {
-			return i.pathError("xattr.lset", a[0], pick(r.errno, eNOENT))
-		}
-		if i.fsFault("xattr") {
-			return i.pathError("xattr.lset", a[0], eOPNOTSUPP)
-		}
-		i.fsMutate(fr, "setxattr", a[0])
-		val := append([]value(nil), a[2].([]value)...)
-		for k := range r.node.xattrs {
-			if i.nameEq(fr, r.node.xattrs[k][0], a[1]) {
-				r.node.xattrs[k][1] = val
-				return iface{}
+	// extended attributes: the L* functions act on a symlink itself, the others follow it.
+	// Linux refuses user.* attributes on symlinks (EPERM).
+	xset := func(follow bool, op string) intrinsic {
+		return func(i *interpreter, fr *frame, fn *ssa.Function, a []value) value {
+			r := i.resolve(fr, a[0], follow)
+			if r.errno != 0 || r.node == nil {
+				return i.pathError(op, a[0], pick(r.errno, eNOENT))
 			}
-		}
-		r.node.xattrs = append(r.node.xattrs, [2]value{a[1], val})
-		return iface{}
-	})
-	R("github.com/pkg/xattr.LList", func(i *interpreter, fr *frame, fn *ssa.Function, a []value) value {
-		r := i.resolve(fr, a[0], false)
-		if r.errno != 0 || r.node == nil {
-			return tuple{[]value(nil), i.pathError("xattr.llist", a[0], pick(r.errno, eNOENT))}
-		}
-		var out []value
-		for _, kv := range r.node.xattrs {
-			out = append(out, kv[0])
-		}
-		return tuple{out, iface{}}
-	})
-	R("github.com/pkg/xattr.LGet", func(i *interpreter, fr *frame, fn *ssa.Function, a []value) value {
-		r := i.resolve(fr, a[0], false)
-		if r.errno != 0 || r.node == nil {
-			return tuple{[]value(nil), i.pathError("xattr.lget", a[0], pick(r.errno, eNOENT))}
-		}
-		for _, kv := range r.node.xattrs {
-			if i.nameEq(fr, kv[0], a[1]) {
-				return tuple{append([]value(nil), kv[1].([]value)...), iface{}}
+			if i.fsFault("xattr") {
+				return i.pathError(op, a[0], eOPNOTSUPP)
 			}
+			if r.node.kind == nkSymlink && strings.HasPrefix(pathStr(a[1]), "user.") {
+				return i.pathError(op, a[0], ePERM)
+			}
+			i.fsMutate(fr, "setxattr", a[0])
+			val := append([]value(nil), a[2].([]value)...)
+			for k := range r.node.xattrs {
+				if i.nameEq(fr, r.node.xattrs[k][0], a[1]) {
+					r.node.xattrs[k][1] = val
+					return iface{}
+				}
+			}
+			r.node.xattrs = append(r.node.xattrs, [2]value{a[1], val})
+			return iface{}
 		}
-		return tuple{[]value(nil), i.pathError("xattr.lget", a[0], eNODATA)}
-	})
+	}
+	xlist := func(follow bool, op string) intrinsic {
+		return func(i *interpreter, fr *frame, fn *ssa.Function, a []value) value {
+			r := i.resolve(fr, a[0], follow)
+			if r.errno != 0 || r.node == nil {
+				return tuple{[]value(nil), i.pathError(op, a[0], pick(r.errno, eNOENT))}
+			}
+			var out []value
+			for _, kv := range r.node.xattrs {
+				out = append(out, kv[0])
+			}
+			return tuple{out, iface{}}
+		}
+	}
+	xget := func(follow bool, op string) intrinsic {
+		return func(i *interpreter, fr *frame, fn *ssa.Function, a []value) value {
+			r := i.resolve(fr, a[0], follow)
+			if r.errno != 0 || r.node == nil {
+				return tuple{[]value(nil), i.pathError(op, a[0], pick(r.errno, eNOENT))}
+			}
+			for _, kv := range r.node.xattrs {
+				if i.nameEq(fr, kv[0], a[1]) {
+					return tuple{append([]value(nil), kv[1].([]value)...), iface{}}
+				}
+			}
+			return tuple{[]value(nil), i.pathError(op, a[0], eNODATA)}
+		}
+	}
+	R("github.com/pkg/xattr.LSet", xset(false, "xattr.lset"))
+	R("github.com/pkg/xattr.Set", xset(true, "xattr.set"))
+	R("github.com/pkg/xattr.LList", xlist(false, "xattr.llist"))
+	R("github.com/pkg/xattr.List", xlist(true, "xattr.list"))
+	R("github.com/pkg/xattr.LGet", xget(false, "xattr.lget"))
+	R("github.com/pkg/xattr.Get", xget(true, "xattr.get"))
 
 	// harness control of the model
 	for _, pfx := range []string{desyncPath + ".", desyncPath + "/cmd/desync."} {
